@@ -83,7 +83,7 @@ func C04() *runner.Property {
 				}{r.U64(), 25000}}))
 			}
 			// sweep scenarios: retention x cutoff grid (small retentions so that the grid is cheap to populate)
-			for _, rd := range []float32{0.1, 1, 1.03, 7} {
+			for _, rd := range []float32{0.1, 0.5, 1, 1.03, 1.5, 7} {
 				R := time.Duration(float64(rd) * float64(24*time.Hour))
 				for _, co := range []time.Duration{-2 * time.Hour, -time.Nanosecond, 0, time.Nanosecond, R / 100, R / 2, R * 3 / 4, R, R * 10} {
 					for _, d := range []int{0, 30} {
@@ -277,6 +277,18 @@ func runSweep(sc sweepScn, env *runner.Env, res *runner.Result) {
 		return
 	}
 	afterSweep, _ := a.Logical()
+	s1 := time.Now()
+	// the sweeper must not be more eager than the configured retention: a marker it removes although it is younger is
+	// re-created by the next snapshot that still carries it (markers bounce), and while it is gone an older live version
+	// from a stale instance brings the key back
+	for _, m := range marks {
+		if m.local && m.ts >= uint64(s1.Add(-R+tol).UnixNano()) {
+			if _, ok := afterSweep["d"][m.key]; !ok {
+				res.Violate("young-marker-swept", fmt.Sprintf("marker %s is %v old, the retention is %v, the sweeper removed it", m.key, s1.Sub(time.Unix(0, int64(m.ts))), R), map[string]any{"scenario": sc})
+			}
+			res.Count("young_local_markers_checked_after_sweep", 1)
+		}
+	}
 	if sc.DelayMS > 0 {
 		time.Sleep(time.Duration(sc.DelayMS) * time.Millisecond)
 	}
